@@ -10,7 +10,7 @@
         (that comparison is what ties this file to the source);
       - instantiated on R the theorems below are proved for ALL curves.
     Hypotheses about the external numerics are Section hypotheses (never axioms):
-      brent_none / brent_some (what brentq returns, with an explicit tolerance), and
+      brent_spec (what brentq returns, with an explicit tolerance) for the three calls made, and
       monotonicity of T+-(vw) inside the window (physics; validated by scanning). *)
 From Coq Require Import Reals Lra QArith Qreals Bool.
 
@@ -116,11 +116,14 @@ Variable brentq : (R -> R) -> R -> R -> option R.
 Variable tol : R.                        (* accuracy of the root finder *)
 Hypothesis tol_nonneg : 0 <= tol.
 
-(** scipy brentq: ValueError exactly when both ends have the same strict sign; otherwise a
-    point of the bracket within [tol] of a zero of f that lies in the bracket *)
-Hypothesis brent_none : forall f a b, brentq f a b = None -> 0 < f a * f b.
-Hypothesis brent_some : forall f a b r, a <= b -> brentq f a b = Some r ->
-  a <= r <= b /\ exists r0, a <= r0 <= b /\ f r0 = 0 /\ Rabs (r - r0) <= tol.
+(** scipy brentq on f over [a,b]: ValueError exactly when both ends have the same strict
+    sign; otherwise a point of the bracket within [tol] of a zero of f that lies in the
+    bracket.  Assumed ONLY for the three calls the code makes (so that the hypotheses are
+    satisfiable: see Example brent_spec_satisfiable in Props/C06.v). *)
+Definition brent_spec (f : R -> R) (a b : R) : Prop :=
+  (brentq f a b = None -> 0 < f a * f b) /\
+  (forall r, brentq f a b = Some r ->
+     a <= r <= b /\ exists r0, a <= r0 <= b /\ f r0 = 0 /\ Rabs (r - r0) <= tol).
 
 Notation lo := (vMin c + vBracketLow c).
 Notation hi := (vJ c - vBracketLow c).
@@ -128,6 +131,8 @@ Notation FD := (fastestDeflag opsR c Tp Tm brentq).
 
 Hypothesis Hbr : 0 < vBracketLow c.
 Hypothesis Hwin : lo <= hi.
+Hypothesis brent_Tm : brent_spec (fun v => Tm v - TMaxLowT c) lo hi.
+Hypothesis brent_Tp : brent_spec (fun v => Tp v - TMaxHighT c) lo hi.
 
 Definition incr_on (f : R -> R) a b := forall x y, a <= x -> x <= y -> y <= b -> f x <= f y.
 Definition sincr_on (f : R -> R) a b := forall x y, a <= x -> x < y -> y <= b -> f x < f y.
@@ -162,7 +167,7 @@ Proof.
   destruct (FD_cases flags) as [[_ [_ E]]|[_ [v1 [f1 [v2 [f2 [E [[[B1 _]|[_ [V1 _]]] _]]]]]]]];
     rewrite E; cbn [fst].
   - lra.
-  - destruct (brent_some _ _ _ _ Hwin B1) as [[_ H] _].
+  - destruct (proj2 brent_Tm _ B1) as [[_ H] _].
     apply Rle_trans with v1; [apply Rmin_l|lra].
   - subst v1. apply Rmin_l.
 Qed.
@@ -180,11 +185,11 @@ Proof.
   destruct (Rle_dec v1 v2) as [L|L].
   - rewrite Rmin_left in * by exact L.
     destruct H1 as [[B1 _]|[_ [V1 _]]]; [|lra].
-    destruct (brent_some _ _ _ _ Hwin B1) as [Hr [r0 [Hr0 [Z D]]]].
+    destruct (proj2 brent_Tm _ B1) as [Hr [r0 [Hr0 [Z D]]]].
     split; [exact Hr|]. exists r0. repeat split; try tauto. left. lra.
   - rewrite Rmin_right in * by lra.
     destruct H2 as [[B2 _]|[_ [V2 _]]]; [|lra].
-    destruct (brent_some _ _ _ _ Hwin B2) as [Hr [r0 [Hr0 [Z D]]]].
+    destruct (proj2 brent_Tp _ B2) as [Hr [r0 [Hr0 [Z D]]]].
     split; [exact Hr|]. exists r0. repeat split; try tauto. right. lra.
 Qed.
 
@@ -197,16 +202,17 @@ Hypothesis Tm_lo : Tm lo <= TMaxLowT c.
 Hypothesis Tp_lo : Tp lo <= TMaxHighT c.
 
 Lemma limit_ok (T : R -> R) TMax v :
+  brent_spec (fun x => T x - TMax) lo hi ->
   incr_on T lo hi -> T lo <= TMax ->
   (brentq (fun x => T x - TMax) lo hi = Some v \/
    (brentq (fun x => T x - TMax) lo hi = None /\ v = vJ c)) ->
   forall vw, lo <= vw <= hi -> vw <= v - tol -> T vw <= TMax.
 Proof.
-  intros Hi Hl [B|[B V]] vw Hvw Hle.
-  - destruct (brent_some _ _ _ _ Hwin B) as [Hr [r0 [Hr0 [Z D]]]].
+  intros BS Hi Hl [B|[B V]] vw Hvw Hle.
+  - destruct (proj2 BS _ B) as [Hr [r0 [Hr0 [Z D]]]].
     apply Rabs_def2b in D. assert (vw <= r0) by lra.
     apply Rle_trans with (T r0); [apply Hi; lra|lra].
-  - apply brent_none in B.
+  - apply (proj1 BS) in B.
     assert (T lo - TMax < 0).
     { destruct (Rle_lt_or_eq_dec _ _ Hl) as [|E]; [lra|]. rewrite E in B.
       replace (TMax - TMax) with 0 in B by ring. lra. }
@@ -226,8 +232,8 @@ Proof.
     + apply Rle_trans with (Tm hi); [apply Tm_incr; lra|lra].
     + apply Rle_trans with (Tp hi); [apply Tp_incr; lra|lra].
   - pose proof (Rmin_l v1 v2). pose proof (Rmin_r v1 v2). split.
-    + apply (limit_ok Tm (TMaxLowT c) v1 Tm_incr Tm_lo); [tauto|exact Hvw|lra].
-    + apply (limit_ok Tp (TMaxHighT c) v2 Tp_incr Tp_lo); [tauto|exact Hvw|lra].
+    + apply (limit_ok Tm (TMaxLowT c) v1 brent_Tm Tm_incr Tm_lo); [tauto|exact Hvw|lra].
+    + apply (limit_ok Tp (TMaxHighT c) v2 brent_Tp Tp_incr Tp_lo); [tauto|exact Hvw|lra].
 Qed.
 End Monotone.
 
@@ -261,10 +267,10 @@ Proof.
   - split; intro F.
     + destruct H1 as [[B1 F1]|[_ [_ F1]]]; [|congruence].
       destruct (lowEnds c); [cbn in F1; congruence|]. split; [reflexivity|].
-      destruct (brent_some _ _ _ _ Hwin B1) as [_ [r0 [Hr0 [Z _]]]]. exists r0. split; [tauto|lra].
+      destruct (proj2 brent_Tm _ B1) as [_ [r0 [Hr0 [Z _]]]]. exists r0. split; [tauto|lra].
     + destruct H2 as [[B2 F2]|[_ [_ F2]]]; [|congruence].
       destruct (highEnds c); [cbn in F2; congruence|]. split; [reflexivity|].
-      destruct (brent_some _ _ _ _ Hwin B2) as [_ [r0 [Hr0 [Z _]]]]. exists r0. split; [tauto|lra].
+      destruct (proj2 brent_Tp _ B2) as [_ [r0 [Hr0 [Z _]]]]. exists r0. split; [tauto|lra].
 Qed.
 
 (** the limiting velocity itself does not depend on the flags or on whether a range end is
@@ -282,6 +288,7 @@ Notation dlo := (vJ c + / 10000).
 Notation SD := (slowestDeton opsR c Tm brentq).
 Hypothesis HvJ1 : dlo <= 1.
 Hypothesis Htol : tol <= / 100.
+Hypothesis brent_Tm_deton : brent_spec (fun v => Tm v - TMaxLowT c) dlo 1.
 
 Lemma SD_cases :
   (TMaxLowT c < Tm 1 /\ SD = 1) \/
@@ -304,7 +311,7 @@ Proof.
   assert (0 < / 100) by (apply Rinv_0_lt_compat; lra).
   destruct SD_cases as [[_ E]|[_ [[r [B E]]|[_ E]]]]; rewrite E.
   - lra.
-  - destruct (brent_some _ _ _ _ HvJ1 B) as [Hr _]. split; [|apply Rmin_l].
+  - destruct (proj2 brent_Tm_deton _ B) as [Hr _]. split; [|apply Rmin_l].
     apply Rmin_glb; lra.
   - lra.
 Qed.
@@ -320,13 +327,13 @@ Proof.
   intros H1 vw Hvw.
   assert (0 < / 10000) by (apply Rinv_0_lt_compat; lra).
   destruct SD_cases as [[A _]|[_ [[r [B E]]|[B E]]]]; [lra| |]; rewrite E; intro Hle.
-  - destruct (brent_some _ _ _ _ HvJ1 B) as [Hr [r0 [Hr0 [Z D]]]].
+  - destruct (proj2 brent_Tm_deton _ B) as [Hr [r0 [Hr0 [Z D]]]].
     apply Rabs_def2b in D.
     destruct (Rle_dec 1 (r + / 100)) as [L|L].
     + rewrite Rmin_left in Hle by exact L. assert (vw = 1) by lra. subst vw. exact H1.
     + rewrite Rmin_right in Hle by lra. assert (r0 <= vw) by lra.
       apply Rle_trans with (Tm r0); [apply Tm_decr; lra|lra].
-  - apply brent_none in B.
+  - apply (proj1 brent_Tm_deton) in B.
     assert (Tm 1 - TMaxLowT c < 0).
     { destruct (Rle_lt_or_eq_dec _ _ H1) as [|Q]; [lra|]. rewrite Q in B.
       replace (TMaxLowT c - TMaxLowT c) with 0 in B by ring. lra. }
@@ -350,7 +357,7 @@ Theorem slowest_is_range_hit : vJ c < SD -> SD < 1 ->
 Proof.
   intros Hl Hu.
   destruct SD_cases as [[_ E]|[_ [[r [B E]]|[_ E]]]]; [lra| |lra].
-  destruct (brent_some _ _ _ _ HvJ1 B) as [Hr [r0 [Hr0 [Z D]]]].
+  destruct (proj2 brent_Tm_deton _ B) as [Hr [r0 [Hr0 [Z D]]]].
   rewrite E in *.
   destruct (Rle_dec 1 (r + / 100)) as [L|L].
   - rewrite Rmin_left in Hu by exact L. lra.
